@@ -35,6 +35,10 @@ UNUSUAL_X = [
     "proc show(array s) is 1(s[0] + 48, 0) proc main() is show(\"\")",
     "proc show(array s, val c) is 1(c, 0) proc main() is { show(\"\", 'a'); show(\"b\", #7F) }",
     "proc main() is 0('x' - #78)",
+    # rejected while code is being generated (after parsing and constant propagation have succeeded)
+    "var x; proc main() is x := missing[2]",
+    "var x; array a[x]; proc main() is skip",
+    "proc main() is var q; { q := 1; while q < 3 do q := q + nothere[q] }",
     # literals beyond the range of the conversion routines (they leave errno and the like behind in the process)
     "val big = 99999999999999999999; proc main() is 0(big)",
     "proc main() is 0(#FFFFFFFFFFFFFFFFFFFFFFF - 1)",
@@ -160,6 +164,12 @@ def inproc(v, srcs, rnd):
     hasm = common.build_cxx("h_asm", ["h_asm.cpp", "repo:hex.cpp"])
     for kind, exe in (("x", hx), ("asm", hasm)):
         mine = [s for s in srcs if s[0] == kind]
+        odd = [s for s in mine if s[1].startswith(("unusual", "aunusual"))] or mine
+
+        def pick_pre():
+            # the hand-written unusual sources (rejected at different stages, out-of-range literals, ...) are the likelier
+            # ones to leave something behind in the process: they get a third of the draws
+            return (rnd.choice(odd) if rnd.random() < 0.33 else rnd.choice(mine))[2]
         cases = []
         for i, (_, tag, text) in enumerate(mine):
             base = {"src": text}
@@ -168,28 +178,32 @@ def inproc(v, srcs, rnd):
             cases.append(("%d_0" % i, dict(base)))
             f2 = dict(base)
             for k in range(2):
-                f2["pre%d" % k] = rnd.choice(mine)[2]
+                f2["pre%d" % k] = pick_pre()
+            if i % 2:
+                f2["lfirst"] = b"1"
             cases.append(("%d_2" % i, f2))
             # the same, through one Driver (xcmp) or one lexer and parser (hexasm) that has already processed other sources
             r2 = dict(f2)
             r2["reuse"] = b"1"
-            r2["pre0"] = rnd.choice(mine)[2]
+            r2["pre0"] = pick_pre()
             cases.append(("%d_r2" % i, r2))
             r6 = dict(base)
             r6["reuse"] = b"1"
             for k in range(6):
-                r6["pre%d" % k] = rnd.choice(mine)[2]
+                r6["pre%d" % k] = pick_pre()
+            if i % 2 == 0:
+                r6["lfirst"] = b"1"
             cases.append(("%d_r6" % i, r6))
             if i % 8 == 0:
                 r9 = dict(base)
                 r9["reuse"] = b"1"
                 for k in range(9):
-                    r9["pre%d" % k] = rnd.choice(mine)[2]
+                    r9["pre%d" % k] = pick_pre()
                 cases.append(("%d_r9" % i, r9))
             if i % 8 == 0:
                 f50 = dict(base)
                 for k in range(49):
-                    f50["pre%d" % k] = rnd.choice(mine)[2]
+                    f50["pre%d" % k] = pick_pre()
                 cases.append(("%d_49" % i, f50))
         res = common.run_harness(exe, cases, args=["cases"], tag="c11in", timeout=4 * 3600)
         for i, (_, tag, text) in enumerate(mine):
